@@ -12,6 +12,12 @@
 // the instrumented ones, value -888 for the plain ones).  Every ValueStore the harness owns is a separate, exactly-sized heap
 // block (new Po::ValueStore: two words; map entries only ever adopt, i.e. use the heap table), operator='s temporaries live on
 // the instrumented stack - so AddressSanitizer sees any write / read beyond a holder's word.
+// Types 18..20 are Setting (8 bytes, in place), Triple (12 bytes), Record (40 bytes, non-trivial) declared in THIS unit's unnamed
+// namespace; types 21..23 are the types of the SAME SPELLING that the second translation unit h_c20_b.cpp declares in ITS unnamed
+// namespace: distinct types (typeid objects differ) whose type_info::name() strings are equal (self-test in main, printed once on
+// stderr).  The second unit's types cannot be named here: every typed operation on them is a function of h_c20_b.h; in this file
+// they are represented by the proxy tags BX<0..2> and `Y<T>` is the one place that says how an operation is done for a type.
+// Typed access to a holder with the other unit's type of the same name must be refused exactly like any other wrong type.
 #include "common.h"
 #include <map>
 #include <set>
@@ -43,6 +49,7 @@
 #include <potassco/program_opts/program_options.h>
 #undef private
 #undef protected
+#include "h_c20_b.h"
 namespace Po = Potassco::ProgramOptions;
 
 // ------------------------------------------------------------------------------------------------------------
@@ -50,7 +57,8 @@ namespace Po = Potassco::ProgramOptions;
 // ------------------------------------------------------------------------------------------------------------
 struct Info { int ty; ll val; int ctor; int dtor; };
 static std::vector<Info> reg;
-static int integrity = 0;   // 1: dead / foreign object touched or destroyed twice, 2: id space exhausted, 3: bytes of a live object's value changed behind its back
+static int integrity = 0;   // 1: dead / foreign object touched or destroyed twice, 2: id space exhausted, 3: bytes of a live object's value changed behind its back,
+                            // 4: checked typed access handed out an object although the holder's type() is another type, 5: the forms of value_cast disagree
 static size_t regNew(int ty, ll v) {
 	Info i = {ty, v, 1, 0};
 	reg.push_back(i);
@@ -102,7 +110,15 @@ struct T12 { int a, b, c; };               // the "struct of three ints"
 struct T9  { unsigned char c[9]; };
 struct T16 { int a, b, c, d; };
 struct T8  { int a, b; };
+// internal linkage: the second translation unit declares its own, unrelated Setting / Triple / Record
+namespace {
+struct Setting { int level; int check; };
+struct Triple  { int a, b, c; };
+struct Record  { std::string name; long level; };
+}
+template <int K> struct BX {};             // proxy tag for the second unit's type k (h_c20_b.h)
 static_assert(sizeof(void*) == 8, "model: PTR_SIZE = 8");
+static_assert(sizeof(Setting) == 8 && sizeof(Triple) == 12 && sizeof(Record) == 40, "model: size_of 18..20 (and 21..23: static_assert in h_c20_b.cpp)");
 static_assert(sizeof(P1) == 1 && sizeof(P4) == 4 && sizeof(P8) == 8 && sizeof(P16) == 16 && sizeof(PS) == 40 && sizeof(PV) == 32, "model: size_of 0..5");
 static_assert(sizeof(bool) == 1 && sizeof(int) == 4 && sizeof(const void*) == 8 && sizeof(std::string) == 32 && sizeof(std::vector<int>) == 24, "model: size_of 6..10");
 static_assert(sizeof(P9) == 9 && sizeof(P12) == 12 && sizeof(P15) == 15 && sizeof(T12) == 12 && sizeof(T9) == 9 && sizeof(T16) == 16 && sizeof(T8) == 8, "model: size_of 11..17");
@@ -145,7 +161,22 @@ template <> struct TT<T8> { enum { code = 17 }; typedef T8 T;
 	static ll value(const T& x) { return x.b == ~x.a ? x.a : -888; }
 	static void set(T& x, ll v) { x = make(v); } static ll oid(const T&) { return -1; } };
 
-enum { NTY = 18 };
+template <> struct TT<Setting> { enum { code = 18 }; typedef Setting T;
+	static T make(ll v) { T x = {(int)v, (int)(v * 5 + 3)}; return x; }
+	static ll value(const T& x) { return x.check == (int)((ll)x.level * 5 + 3) ? x.level : -888; }
+	static void set(T& x, ll v) { x = make(v); } static ll oid(const T&) { return -1; } };
+template <> struct TT<Triple> { enum { code = 19 }; typedef Triple T;
+	static T make(ll v) { T x = {(int)v, (int)(v * 11 + 2), (int)(v ^ 0x5a5a)}; return x; }
+	static ll value(const T& x) { return x.b == (int)((ll)x.a * 11 + 2) && x.c == (int)((ll)x.a ^ 0x5a5a) ? x.a : -888; }
+	static void set(T& x, ll v) { x = make(v); } static ll oid(const T&) { return -1; } };
+template <> struct TT<Record> { enum { code = 20 }; typedef Record T;
+	static T make(ll v) { T x; x.name = sval(v); x.level = (long)v; return x; }
+	static ll value(const T& x) { return x.name == sval(x.level) ? x.level : -888; }
+	static void set(T& x, ll v) { x = make(v); } static ll oid(const T&) { return -1; } };
+
+enum { NTY = 24, FIRST_B = 21 };
+// the type of the same spelling in the other translation unit (-1: none)
+static int twin(ll ty) { return ty >= 18 && ty <= 20 ? (int)ty + 3 : ty >= 21 && ty <= 23 ? (int)ty - 3 : -1; }
 template <class F> static void dispatch(ll ty, F f) {
 	switch (ty) {
 		case 0: f((P1*)0); break; case 1: f((P4*)0); break; case 2: f((P8*)0); break; case 3: f((P16*)0); break;
@@ -153,18 +184,14 @@ template <class F> static void dispatch(ll ty, F f) {
 		case 8: f((const void**)0); break; case 9: f((std::string*)0); break; case 10: f((std::vector<int>*)0); break;
 		case 11: f((P9*)0); break; case 12: f((P12*)0); break; case 13: f((P15*)0); break;
 		case 14: f((T12*)0); break; case 15: f((T9*)0); break; case 16: f((T16*)0); break; case 17: f((T8*)0); break;
+		case 18: f((Setting*)0); break; case 19: f((Triple*)0); break; case 20: f((Record*)0); break;
+		case 21: f((BX<0>*)0); break; case 22: f((BX<1>*)0); break; case 23: f((BX<2>*)0); break;
 		default: break;
 	}
 }
 #define TYPE_OF(tag) typename std::remove_pointer<decltype(tag)>::type
 static ll norm(ll ty, ll v) { ll m = ty == 6 ? 2 : 1000; ll r = v % m; return r < 0 ? r + m : r; }
 static bool okty(ll ty) { return ty >= 0 && ty < NTY; }
-static int tcode(const Po::ValueStore& s) {
-	if (s.empty()) return -1;
-	int r = -2;
-	for (int t = 0; t != NTY; ++t) dispatch(t, [&](auto* tag) { typedef TYPE_OF(tag) T; if (s.type() == typeid(T)) r = t; });
-	return r;
-}
 static bool inplace(const Po::ValueStore& s) { return !s.empty() && s.extract_raw() == (void*)&s.value_; }
 
 template <class T> static bool parseT(const std::string& s, T& out) {
@@ -203,13 +230,86 @@ static const int* partOf(const Po::ValueStore& s, ll v, int*) {
 }
 template <class T> static const T* aliasOf(const Po::ValueStore& s, ll v) {
 	if (s.empty()) return 0;
-	if (const T* p = Po::value_cast<T>(&s)) return TT<T>::value(*p) == v ? p : 0;
+	if (const T* p = Po::value_cast<T>(&s)) {
+		// handed out although the holder holds another type (type_info identity): never read as a T
+		if (s.type() != typeid(T)) { if (integrity == 0) integrity = 4; return 0; }
+		return TT<T>::value(*p) == v ? p : 0;
+	}
 	return partOf(s, v, (T*)0);
 }
 template <class T> static void assignVal(Po::ValueStore& s, ll v) {
 	T arg(TT<T>::make(v));                 // the T(v) of the model (guaranteed elision: one object)
 	if (const T* a = aliasOf<T>(s, v)) { s = *a; }
 	else                               { s = arg; }
+}
+
+// ------------------------------------------------------------------------------------------------------------
+// Y<T>: how each typed operation of the case alphabet is done for type T - generic for the types this unit can name,
+// forwarded to the second translation unit for its types (proxy BX<k>).
+// `cast` is the whole value_cast family on one holder: pointer form, reference form, non-const forms and the unchecked form
+// must agree (integrity 5 otherwise); an access that is ACCEPTED although the holder's type() is not T (type_info identity)
+// sets integrity 4 and reports the value B_FOREIGN - the object is never read through the wrong type.
+// ------------------------------------------------------------------------------------------------------------
+template <class T> struct Y {
+	static bool holds(const Po::ValueStore& s) { return !s.empty() && s.type() == typeid(T); }
+	static Po::ValueStore* construct(ll v) { return new Po::ValueStore(TT<T>::make(v)); }
+	static void  assign(Po::ValueStore& s, ll v) { assignVal<T>(s, v); }
+	static void* cnew(ll v) { return new T(TT<T>::make(v)); }
+	static void  cdel(void* p) { delete static_cast<T*>(p); }
+	static void  adopt(Po::ValueStore& s, void* p) { s.assimilate(static_cast<T*>(p)); }
+	static void  destroyInPlace(void* p) { static_cast<T*>(p)->~T(); }
+	static ll    objValue(const void* p) { return TT<T>::value(*static_cast<const T*>(p)); }
+	static ll    objId(const void* p) { return TT<T>::oid(*static_cast<const T*>(p)); }
+	static void  setThrough(Po::ValueStore& s, ll v) { TT<T>::set(Po::value_cast<T>(s), v); }
+	static void  read(const Po::ValueStore& s, ll& val, ll& id) { const T& x = Po::value_cast<T>(s); val = TT<T>::value(x); id = TT<T>::oid(x); }
+	static bool  cast(const Po::ValueStore& s, ll& val) {
+		const T* p = Po::value_cast<T>(&s);
+		bool thrown = false; const T* q = 0;
+		try { q = &Po::value_cast<T>(s); } catch (const Po::bad_value_cast&) { thrown = true; }
+		bool agree = true;
+		if ((p == 0) != thrown || (p != 0 && p != q)) agree = false;
+		if (p != 0 && Po::unsafe_value_cast<T>(&s) != p) agree = false;
+		Po::ValueStore& m = const_cast<Po::ValueStore&>(s);
+		if (Po::value_cast<T>(&m) != p) agree = false;
+		if (!agree && integrity == 0) integrity = 5;
+		val = 0;
+		if (p == 0 && thrown) return false;
+		if (p != 0 && holds(s)) { val = TT<T>::value(*p); }
+		else { val = B_FOREIGN; if (integrity == 0) integrity = 4; }
+		return true;
+	}
+	static void  mapAdd(Po::ValueMap* m, const std::string& name, const void* p) { Po::ValueMap::add<T>(m, name, static_cast<const T*>(p)); }
+	static Po::Value* makeNV(Po::ValueMap& m) { return Po::store<T>(m, &parseT<T>); }
+};
+template <int K> struct Y<BX<K> > {
+	static bool holds(const Po::ValueStore& s) { return b_holds(s, K); }
+	static Po::ValueStore* construct(ll v) { return b_construct(K, (long)v); }
+	static void  assign(Po::ValueStore& s, ll v) { b_store(s, K, (long)v); }
+	static void* cnew(ll v) { return b_new(K, (long)v); }
+	static void  cdel(void* p) { b_delete(K, p); }
+	static void  adopt(Po::ValueStore& s, void* p) { b_adopt(s, K, p); }
+	static void  destroyInPlace(void* p) { b_destroy_in_place(K, p); }
+	static ll    objValue(const void* p) { return b_value(K, p); }
+	static ll    objId(const void*) { return -1; }
+	static void  setThrough(Po::ValueStore& s, ll v) { b_set_through(s, K, (long)v); }
+	static void  read(const Po::ValueStore& s, ll& val, ll& id) { val = b_read(s, K); id = -1; }
+	static bool  cast(const Po::ValueStore& s, ll& val) {
+		long r = 0; int agree = 1;
+		int acc = b_probe(s, K, &r, &agree);
+		if (!agree && integrity == 0) integrity = 5;
+		val = r;
+		if (acc && r == B_FOREIGN && integrity == 0) integrity = 4;
+		return acc != 0;
+	}
+	static void  mapAdd(Po::ValueMap* m, const std::string& name, const void* p) { b_map_add(m, name, K, p); }
+	static Po::Value* makeNV(Po::ValueMap& m) { return b_make_nv(m, K); }
+};
+static int tcode(const Po::ValueStore& s) {
+	if (s.empty()) return -1;
+	int r = -2, n = 0;
+	for (int t = 0; t != NTY; ++t) dispatch(t, [&](auto* tag) { typedef TYPE_OF(tag) T; if (Y<T>::holds(s)) { r = t; ++n; } });
+	if (n > 1) integrity = 1;       // type() answers for two different types of the table
+	return r;
 }
 
 // ------------------------------------------------------------------------------------------------------------
@@ -229,7 +329,7 @@ struct A {
 	bool okm(ll n) const { return n >= 0 && n < M; }
 	Po::Value* makeNV(ll n) {
 		Po::Value* r = 0;
-		dispatch(tys[(size_t)n], [&](auto* tag) { typedef TYPE_OF(tag) T; r = Po::store<T>(*vm, &parseT<T>); });
+		dispatch(tys[(size_t)n], [&](auto* tag) { typedef TYPE_OF(tag) T; r = Y<T>::makeNV(*vm); });
 		return r;
 	}
 	void resetNV(ll n) { delete nv[(size_t)n]; nv[(size_t)n] = makeNV(n); }
@@ -243,9 +343,13 @@ struct A {
 		int t = tcode(s);
 		if (t < 0) { o.add(t); o.add(0); o.add(0); o.add(-1); return; }
 		dispatch(t, [&](auto* tag) { typedef TYPE_OF(tag) T;
-			const T& x = Po::value_cast<T>(s);
-			o.add(t); o.add(TT<T>::value(x)); o.add(inplace(s) ? 1 : 0); o.add(TT<T>::oid(x));
+			ll val = 0, id = -1;
+			Y<T>::read(s, val, id);
+			o.add(t); o.add(val); o.add(inplace(s) ? 1 : 0); o.add(id);
 		});
+		// the type of the same spelling in the other translation unit is another type: access through it must be refused
+		// (nothing is printed; an accepted access sets integrity 4)
+		if (twin(t) >= 0) dispatch(twin(t), [&](auto* tag) { typedef TYPE_OF(tag) T; ll val = 0; if (Y<T>::cast(s, val) && integrity == 0) integrity = 4; });
 	}
 	static void dumpLive(Obs& o) {
 		size_t n = 0; ll d = 0;
@@ -267,8 +371,7 @@ struct A {
 		o.add((ll)cl.size());
 		for (size_t k = 0; k != cl.size(); ++k) {
 			dispatch(cl[k].ty, [&](auto* tag) { typedef TYPE_OF(tag) T;
-				const T& x = *static_cast<const T*>(cl[k].p);
-				o.add(cl[k].ty); o.add(TT<T>::value(x)); o.add(TT<T>::oid(x));
+				o.add(cl[k].ty); o.add(Y<T>::objValue(cl[k].p)); o.add(Y<T>::objId(cl[k].p));
 			});
 		}
 		dumpLive(o);
@@ -278,14 +381,8 @@ struct A {
 	void castObs(const Po::ValueStore& s, ll ty) {
 		if (!okty(ty)) { o.add(0); o.add(0); return; }
 		dispatch(ty, [&](auto* tag) { typedef TYPE_OF(tag) T;
-			const T* p = Po::value_cast<T>(&s);
-			bool thrown = false; const T* q = 0;
-			try { q = &Po::value_cast<T>(s); } catch (const Po::bad_value_cast&) { thrown = true; }
-			if ((p == 0) != thrown || (p != 0 && p != q)) integrity = 1;
-			if (p != 0 && Po::unsafe_value_cast<T>(&s) != p) integrity = 1;
-			Po::ValueStore& m = const_cast<Po::ValueStore&>(s);
-			if (Po::value_cast<T>(&m) != p) integrity = 1;
-			if (p) { o.add(1); o.add(TT<T>::value(*p)); } else { o.add(0); o.add(0); }
+			ll val = 0;
+			if (Y<T>::cast(s, val)) { o.add(1); o.add(val); } else { o.add(0); o.add(0); }
 		});
 	}
 	void run(Case& c) {
@@ -302,8 +399,8 @@ struct A {
 				if (c.v.size() - c.p < 3) break;
 				ll i = c.next(), ty = c.next(), v = c.next();
 				if (okh(i) && okty(ty)) dispatch(ty, [&](auto* tag) { typedef TYPE_OF(tag) T;
-					if (op == 1) { Po::ValueStore* n = new Po::ValueStore(TT<T>::make(norm(ty, v))); delete h[(size_t)i]; h[(size_t)i] = n; }
-					else         { assignVal<T>(*h[(size_t)i], norm(ty, v)); }
+					if (op == 1) { Po::ValueStore* n = Y<T>::construct(norm(ty, v)); delete h[(size_t)i]; h[(size_t)i] = n; }
+					else         { Y<T>::assign(*h[(size_t)i], norm(ty, v)); }
 				});
 			}
 			else if (op == 2 || op == 4) {
@@ -329,14 +426,14 @@ struct A {
 				if (c.v.size() - c.p < 2) break;
 				ll ty = c.next(), v = c.next();
 				if (okty(ty)) dispatch(ty, [&](auto* tag) { typedef TYPE_OF(tag) T;
-					CObj x = {(int)ty, new T(TT<T>::make(norm(ty, v)))}; cl.push_back(x);
+					CObj x = {(int)ty, Y<T>::cnew(norm(ty, v))}; cl.push_back(x);
 				});
 			}
 			else if (op == 8) {
 				if (c.v.size() - c.p < 1) break;
 				ll k = c.next();
 				if (k >= 0 && (size_t)k < cl.size()) {
-					dispatch(cl[(size_t)k].ty, [&](auto* tag) { typedef TYPE_OF(tag) T; delete static_cast<T*>(cl[(size_t)k].p); });
+					dispatch(cl[(size_t)k].ty, [&](auto* tag) { typedef TYPE_OF(tag) T; Y<T>::cdel(cl[(size_t)k].p); });
 					cl.erase(cl.begin() + k);
 				}
 			}
@@ -344,7 +441,7 @@ struct A {
 				if (c.v.size() - c.p < 2) break;
 				ll i = c.next(), k = c.next();
 				if (okh(i) && k >= 0 && (size_t)k < cl.size()) {
-					dispatch(cl[(size_t)k].ty, [&](auto* tag) { typedef TYPE_OF(tag) T; h[(size_t)i]->assimilate(static_cast<T*>(cl[(size_t)k].p)); });
+					dispatch(cl[(size_t)k].ty, [&](auto* tag) { typedef TYPE_OF(tag) T; Y<T>::adopt(*h[(size_t)i], cl[(size_t)k].p); });
 					cl.erase(cl.begin() + k);
 				}
 			}
@@ -356,7 +453,7 @@ struct A {
 					int t = tcode(s); bool inp = inplace(s); void* p = s.extract_raw();
 					s.surrender();
 					dispatch(t, [&](auto* tag) { typedef TYPE_OF(tag) T;
-						if (inp) { static_cast<T*>(p)->~T(); }
+						if (inp) { Y<T>::destroyInPlace(p); }
 						else     { CObj x = {t, p}; cl.push_back(x); }
 					});
 				}
@@ -366,7 +463,7 @@ struct A {
 				ll i = c.next(), v = c.next();
 				if (okh(i) && !h[(size_t)i]->empty()) {
 					int t = tcode(*h[(size_t)i]);
-					dispatch(t, [&](auto* tag) { typedef TYPE_OF(tag) T; TT<T>::set(Po::value_cast<T>(*h[(size_t)i]), norm(t, v)); });
+					dispatch(t, [&](auto* tag) { typedef TYPE_OF(tag) T; Y<T>::setThrough(*h[(size_t)i], norm(t, v)); });
 				}
 			}
 			else if (op == 12) {
@@ -379,7 +476,7 @@ struct A {
 				ll n = c.next(), k = c.next();
 				if (okm(n) && k >= 0 && (size_t)k < cl.size()) {
 					dispatch(cl[(size_t)k].ty, [&](auto* tag) { typedef TYPE_OF(tag) T;
-						Po::ValueMap::add<T>(vm, mname(n), static_cast<const T*>(cl[(size_t)k].p));
+						Y<T>::mapAdd(vm, mname(n), cl[(size_t)k].p);
 					});
 					cl.erase(cl.begin() + k);
 					resetNV(n);
@@ -392,7 +489,7 @@ struct A {
 					const Po::ValueStore& e = (*vm)[mname(n)];
 					if (!e.empty() && !inplace(e)) {
 						dispatch(tcode(e), [&](auto* tag) { typedef TYPE_OF(tag) T;
-							Po::ValueMap::add<T>(vm, mname(n), static_cast<const T*>(e.extract_raw()));
+							Y<T>::mapAdd(vm, mname(n), e.extract_raw());
 						});
 					}
 				}
@@ -430,7 +527,7 @@ struct A {
 		for (size_t i = 0; i != nv.size(); ++i) delete nv[i];
 		dumpLive(o);
 		o.add(integrity);
-		for (size_t k = 0; k != cl.size(); ++k) dispatch(cl[k].ty, [&](auto* tag) { typedef TYPE_OF(tag) T; delete static_cast<T*>(cl[k].p); });
+		for (size_t k = 0; k != cl.size(); ++k) dispatch(cl[k].ty, [&](auto* tag) { typedef TYPE_OF(tag) T; Y<T>::cdel(cl[k].p); });
 	}
 };
 
@@ -789,8 +886,27 @@ static int leakFlag() {
 	if (__lsan_do_recoverable_leak_check() != 0) { tainted = true; return 1; }
 	return 0;
 }
+// the second translation unit's Setting / Triple / Record must be types DIFFERENT from this unit's types of the same spelling whose
+// type_info::name() strings are nevertheless equal - otherwise tags 21..23 do not test what they claim; printed once on stderr
+static void selfTestSecondUnit() {
+	const std::type_info* mine[B_NTYPES] = { &typeid(Setting), &typeid(Triple), &typeid(Record) };
+	const size_t size[B_NTYPES] = { sizeof(Setting), sizeof(Triple), sizeof(Record) };
+	bool ok = true;
+	for (int k = 0; k != B_NTYPES; ++k) {
+		bool sameName = std::strcmp(mine[k]->name(), b_type_name(k)) == 0;
+		bool sameType = b_same_typeinfo(k, *mine[k]);
+		std::fprintf(stderr, "h_c20 self-test: unit A typeid name '%s', unit B typeid name '%s': names %s, type_info objects %s, sizeof %zu / %zu\n",
+			mine[k]->name(), b_type_name(k), sameName ? "equal" : "DIFFER", sameType ? "EQUAL" : "differ", size[k], b_sizeof(k));
+		ok = ok && sameName && !sameType && size[k] == b_sizeof(k);
+	}
+	if (!ok) {
+		std::fprintf(stderr, "SUMMARY: harness: h_c20 self-test failed: the two translation units do not have distinct types with equal type names\n");
+		std::abort();
+	}
+}
 int main() {
 	Case c; Obs o;
+	selfTestSecondUnit();
 	while (readCase(c)) {
 		reg.clear(); odead.clear(); integrity = 0;
 		ll part = c.next();
